@@ -1,5 +1,6 @@
 //! sigverif: property-based / schedule-owning verification harness for vorner/signal-hook.
 #![allow(dead_code)]
+pub mod adapters;
 pub mod alloc;
 pub mod c03;
 pub mod c05;
